@@ -33,6 +33,7 @@ def _ps(p):
 
 
 def cases(rng, tier):
+    yield from _wide_cases(rng, tier)
     N = 120 if tier == "quick" else 2000
     for _ in range(N):
         n = rng.randint(1, 6)
@@ -68,6 +69,19 @@ def cases(rng, tier):
         yield ("measure", {"n": n, "general": gl, "members": members, "prep": prep, "wrong_width": rng.random() < 0.05})
 
 
+def _wide_cases(rng, tier):
+    from . import c06
+    from ..core import frac
+    from fractions import Fraction
+    for _ in range(6 if tier == "quick" else 60):
+        nobs = rng.randint(1, 3)
+        nq = rng.choice([9, 10, 12])
+        subobs = [["".join(rng.choice("XYZZI") for _ in range(nq)) for _ in range(nobs)]]
+        yield ("decode_v2", {"labels": ["A"], "form": rng.choice(["single", "dict"]), "nobs": nobs, "subobs": subobs,
+                             "coeffs": [frac(Fraction(rng.randint(-16, 16) or 1, 8)) for _ in range(rng.randint(1, 3))],
+                             "variant": "v2", "seed": rng.randrange(1 << 30), "drop": False, "strkeys": False})
+
+
 def _cog(payload):
     from qiskit.quantum_info import Pauli
     from qiskit_addon_cutting.utils.observable_grouping import CommutingObservableGroup
@@ -80,6 +94,9 @@ def _collection(payload):
 
 
 def model_line(kind, payload):
+    if kind == "decode_v2":
+        from . import c06
+        return c06.model_line("reconstruct", payload)
     if kind == "general":
         return {"op": "c11.most_general", "obs": payload["members"], "num_qubits": payload["num_qubits"]}
     if kind == "collection":
@@ -96,6 +113,9 @@ def model_line(kind, payload):
 
 
 def run_real(kind, payload):
+    if kind == "decode_v2":
+        from . import c06
+        return c06.run_real("reconstruct", payload)
     from qiskit.quantum_info import Pauli
     from qiskit_addon_cutting.utils.observable_grouping import most_general_observable
     from qiskit_addon_cutting.cutting_experiments import _append_measurement_register, _append_measurement_circuit
@@ -110,12 +130,22 @@ def run_real(kind, payload):
     n = payload["n"] + (1 if payload["wrong_width"] else 0)
     qc = canon.build_circuit({"nq": n, "instrs": payload["prep"]})
     cog = _cog(payload)
+    before_qc = canon.canon_circuit(qc)
     q2 = _append_measurement_register(qc, cog)
+    before_q2 = canon.canon_circuit(q2)
     q3 = _append_measurement_circuit(q2, cog)
+    q3b = _append_measurement_circuit(q2, cog)   # a second out-of-place call on the same base (one per commuting group in practice)
+    if canon.canon_circuit(qc) != before_qc or canon.canon_circuit(q2) != before_q2:
+        return {"ok": {"input_mutated": "an out-of-place call changed its input circuit"}}
+    if canon.canon_circuit(q3b) != canon.canon_circuit(q3):
+        return {"ok": {"input_mutated": "a second out-of-place call on the same base gave a different circuit"}}
     return {"ok": canon.canon_circuit(q3)}
 
 
 def model_canon(kind, payload, out):
+    if kind == "decode_v2":
+        from . import c06
+        return c06.model_canon("reconstruct", payload, out)
     if "driver_error" in out:
         raise RuntimeError(out["driver_error"])
     return out
@@ -128,12 +158,16 @@ def compare(kind, payload, real, model):
 
 
 def describe(kind, payload):
+    if kind == "decode_v2":
+        return {"n": len(payload["subobs"][0][0]), "kind2": "decode_v2"}
     if kind == "collection":
         return {"n": payload["n"], "nobs": len(payload["obs"])}
     return {"n": payload["n"]}
 
 
 def nontrivial_key(kind, payload):
+    if kind == "decode_v2":
+        return hash(json.dumps([kind, payload], sort_keys=True))
     obs = payload.get("obs") or payload.get("members")
     if all(set(o["l"]) <= {"I"} for o in obs):
         return None
@@ -162,6 +196,9 @@ def _decode(qc_meas, cog, members):
 
 
 def oracle(kind, payload):
+    if kind == "decode_v2":
+        from . import c06
+        return c06.oracle("reconstruct", payload)
     from qiskit.quantum_info import Pauli
     from qiskit_addon_cutting.cutting_experiments import _append_measurement_register, _append_measurement_circuit
     from ..oracles import sem
@@ -212,6 +249,9 @@ def oracle(kind, payload):
     if payload["wrong_width"]:
         real = call_real(lambda p: run_real(kind, p), payload)
         return None if real.get("error") == "ValueError" else "qubit count mismatch not refused"
+    real = call_real(lambda p: run_real(kind, p), payload)
+    if isinstance(real.get("ok"), dict) and "input_mutated" in real["ok"]:
+        return "_append_measurement_circuit(inplace=False): " + real["ok"]["input_mutated"]
     cog = _cog(payload)
     qc = canon.build_circuit({"nq": payload["n"], "instrs": payload["prep"]})
     true = sem.expectations(qc, [m["l"] for m in payload["members"]])
